@@ -1,5 +1,7 @@
 // Raw conditions written as several parenthesised groups joined at the TOP level:
-//   "(a = ?) OR (b = ? AND c = ?)",  "(a = 1)or(b IN (1,2))",  "(a = @p1) AND (b = @p2 OR c = @p3)"
+//
+//	"(a = ?) OR (b = ? AND c = ?)",  "(a = 1)or(b IN (1,2))",  "(a = @p1) AND (b = @p2 OR c = @p3)"
+//
 // The text starts with "(" and ends with ")" although its connective is not inside any pair of
 // parentheses, so whatever decides on wrapping a raw condition has to read the whole text.
 package main
